@@ -1,4 +1,5 @@
 import SioVerif.Model.Ack
+import SioVerif.Gen.Consts
 /-
   C03 — Acks fire at most once, exactly once with a timeout, and carry the right reply.
 
@@ -146,6 +147,12 @@ theorem purge_exact (id : Nat) (buf : List (Option Nat × Nat)) :
   · intro f hf hne
     simp only [purge, List.mem_filter, bne_iff_ne, ne_eq]
     exact ⟨hf, hne⟩
+
+/-- "of that very event": the model's `replies` are the replies that carry this handler's id. On the
+    server the ids of a namespace come from one counter (read from the source), so a reply to an
+    event sent to an earlier socket of the same client never carries the id of an event of its new
+    socket; the rig replays exactly that history (`ackAcrossSockets`) -/
+theorem server_ack_ids_from_namespace_counter : Gen.sioServerAckIdFromNamespace = true := by decide
 
 /-! non-vacuity: a race with a duplicate and an invented reply -/
 example : ((sys true).run {} [.reply 5, .reply 5, .timer, .reply 9]).map (fun p => p.1.invocations) = some [.reply 5] := by decide
